@@ -76,7 +76,7 @@ theorem exec_inv (hwf : cfg.depsBelow) : ∀ (p : Stmt) (s : St), Inv [] s →
       have t1 : Step [] [] s rb.1 := hre.2.1.trans_nil hb.2 h.idLt
       have t2 : Step [] [f] s r2.1 := t1.nil_trans hrx.2 h.idLt
       have t3 : Step [] [f] s (logLeave r2).1 := t2.trans_nil (Step.of_ext [] hx) h.idLt
-      refine ⟨⟨t3.tr.nFrame_le, ?_, t3.tr.newHeld⟩, t3.keep⟩
+      refine ⟨⟨t3.tr.nFrame_le, ?_, t3.tr.newHeld, t3.tr.nObj_le⟩, t3.keep⟩
       intro g hg hn
       rcases t3.tr.gone g hg hn with hm | hk
       · -- `f` did not exist in `s`
